@@ -9,34 +9,7 @@
 #include "contracts/writer.h"
 #include "contracts/io_temp.h"
 
-#define HDR_W_FRAME zck->header, zck->header_size, zck->header_length, zck->lead_string, zck->lead_size, zck->preface_string, zck->preface_size, \
-    zck->index_string, zck->index_size, zck->sig_string, zck->sig_size, zck->hdr_digest_loc, zck->header_digest, zck->data_offset, zck->error_state
-
-/* header_create as zck_close sees it (the function's own units are header_create.* in units/headerw.c) */
-bool header_create(zckCtx *zck)
-V_REQUIRES(__CPROVER_rw_ok(zck, sizeof(*zck)))
-V_REQUIRES(zck->mode != ZCK_MODE_WRITE || (zck->comp.dc_data_size == 0 && zck->work_index_item == NULL)) /*@C01.header_create.nothing_pending_when_the_header_is_built*/
-V_ZC_REQUIRES(g_res_ec == 1)
-V_ASSIGNS(HDR_W_FRAME, g_hu_total, g_hu_seen, g_hu_ptr, g_hu_final, g_hu_inits, g_fin_val, g_fin_total, g_fin_seen, g_fin_ptr)
-V_ZC_ASSIGNS(g_res_hc)
-V_ENSURES(!__CPROVER_return_value || (V_OLD(zck->error_state) <= 0 && zck->mode == ZCK_MODE_WRITE)) /*@C12.header_create.no_success_on_a_context_in_error*/
-V_ENSURES(!__CPROVER_return_value || (zck->header != NULL && __CPROVER_is_fresh(zck->header, zck->header_size))) /*@C01,C03.header_create.header_buffer_holds_header_size_bytes*/
-V_ENSURES(!__CPROVER_return_value || zck->error_state == V_OLD(zck->error_state)) /*@C12.header_create.success_keeps_error_state*/
-V_ZC_ENSURES(g_res_hc == (__CPROVER_return_value != 0))
-;
-
-/* write_header: success only if the whole header buffer was accepted by the output (C12) */
-bool write_header(zckCtx *zck)
-V_REQUIRES(__CPROVER_rw_ok(zck, sizeof(*zck)))
-V_REQUIRES(zck->no_write != 0 || zck->header_size == 0 || (zck->header != NULL && __CPROVER_r_ok(zck->header, zck->header_size)))
-V_ZC_REQUIRES(g_res_hc == 1)
-V_ASSIGNS(zck->error_state, g_fpos, g_wr_bytes, g_io_failed, g_win_bad)
-V_ZC_ASSIGNS(g_res_wh)
-V_ENSURES(!__CPROVER_return_value || (V_OLD(zck->error_state) <= 0 && zck->mode == ZCK_MODE_WRITE)) /*@C12.write_header.no_success_on_a_context_in_error*/
-V_ENSURES(!__CPROVER_return_value || zck->no_write != 0 || (g_wr_bytes[G_IX(zck->fd)] == V_OLD(g_wr_bytes[G_IX(zck->fd)]) + zck->header_size && g_fpos[G_IX(zck->fd)] == V_OLD(g_fpos[G_IX(zck->fd)]) + (g_off_t)zck->header_size)) /*@C12,C01.write_header.success_means_the_whole_header_was_accepted*/
-V_ENSURES(!__CPROVER_return_value || zck->error_state == V_OLD(zck->error_state)) /*@C12.write_header.success_keeps_error_state*/
-V_ZC_ENSURES(g_res_wh == (__CPROVER_return_value != 0))
-;
+#include "contracts/headerw.h"
 
 /* comp_close: ASSUMED frame only (releases codec state; not a subject of C01/C12 beyond its verdict) */
 bool comp_close(zckCtx *zck)
@@ -55,6 +28,7 @@ V_REQUIRES(__CPROVER_rw_ok(zck, sizeof(*zck)) && zck->mode == ZCK_MODE_WRITE && 
 V_REQ_WR_COMMON(zck)
 V_REQUIRES(zck->comp.started != 0 ? WR_BOUNDS(zck) : (OPT_WF(zck) && zck->comp.dc_data_size == 0 && zck->comp.dc_data == NULL && zck->work_index_item == NULL))
 V_REQUIRES(PENDING_WF(zck))
+V_REQUIRES(zck->header_digest == NULL || __CPROVER_rw_ok(zck->header_digest, 1))
 V_REQUIRES(G_IX(zck->fd) != G_IX(zck->temp_fd) && g_from_write == 0)
 V_REQUIRES(g_res_ec == 0 && g_res_hc == 0 && g_res_wh == 0 && g_res_cft == 0)
 V_ASSIGNS(__CPROVER_object_whole(zck), g_same, g_bz_have, WR_GHOST_IO, WR_GHOST_HU, g_rd_bytes, g_last_read, g_watch_seen, g_watch_val, g_res_ec, g_res_hc, g_res_wh, g_res_cft)
